@@ -721,6 +721,9 @@ func knownSuffix(c *Case, res *result, class string, p *P, got any) string {
 		if !strings.HasPrefix(msg, "path ") || !strings.HasSuffix(msg, " was not found") {
 			return ""
 		}
+		if placeholderAfterLiteral.MatchString(c.Template) {
+			return "/placeholder-after-literal-in-segment"
+		}
 		if literalNeedsEscaping(c.Base) || literalNeedsEscaping(c.Template) {
 			return "/literal-needs-escaping"
 		}
@@ -800,5 +803,8 @@ func literalNeedsEscaping(tmpl string) bool {
 	lit := placeholder.ReplaceAllString(tmpl, "x")
 	return (&url.URL{Path: lit}).EscapedPath() != lit
 }
+
+// a placeholder that does not start its path segment
+var placeholderAfterLiteral = regexp.MustCompile(`[^/{}]\{[^}/]*\}`)
 
 var placeholder = regexp.MustCompile(`\{[^}/]*\}`)
